@@ -797,3 +797,44 @@ fire('c20-density-rewritten', 'C20', EV, 'Evolvent.SetBounds', '        self.upp
 twin('c20-density-kw', 'C20', SV, 'Solver.__init__', 'problem.numberOfFloatVariables, parameters.evolventDensity)',
      'problem.numberOfFloatVariables, evolventDensity=parameters.evolventDensity)')
 twin('c20-loop-range1', 'C20', EV, 'Evolvent.__GetYonX', 'for j in range(0, self.evolventDensity):', 'for j in range(self.evolventDensity):')
+
+# ----------------------------------------------------------------------------- C11
+fire('c11-random-tiebreak', 'C11', M, 'Method.CalculateNextPointCoordinate', '            x = 0.5 * (xl + xr)\n        if x <= xl',
+     '            x = 0.5 * (xl + xr) + 0.0 * np.random.rand()\n        if x <= xl', 'R11.1')
+fire('c11-time-seed', 'C11', M, 'Method.__init__', '        self.stop: bool = False\n',
+     '        import time\n        self.stop: bool = False\n        self.seed = time.time()\n', 'R11.1')
+fire('c11-id-order', 'C11', SD, 'CharacteristicsQueue.Insert', 'self.__baseQueue.insert(dataItem, key)',
+     'self.__baseQueue.insert(dataItem, key + 1e-18 * (id(dataItem) % 7))', 'R11.1')
+fire('c11-clock-in-search', 'C11', P, 'Process.Solve', '        startTime = datetime.now()\n',
+     '        startTime = datetime.now()\n        self.method.parameters.r = 2.0 + startTime.microsecond * 1e-12\n', 'R11.1')
+fire('c11-carried-local', 'C11', P, 'Process.DoGlobalIteration',
+     '                newpoint, oldpoint = self.method.CalculateIterationPoint()\n                savedNewPoints.append(newpoint)\n',
+     '                if oldpoint is None:\n                    newpoint, oldpoint = self.method.CalculateIterationPoint()\n                else:\n                    newpoint, oldpoint = self.method.CalculateIterationPoint()\n                savedNewPoints.append(newpoint)\n',
+     'R11.2', also=[(P, 'Process.DoGlobalIteration', '        savedNewPoints = []\n', '        savedNewPoints = []\n        oldpoint = None\n')])
+fire('c11-number-used', 'C11', P, 'Process.DoGlobalIteration', '                self.method.FinalizeIteration()\n',
+     '                self.method.FinalizeIteration()\n                if number > 10:\n                    self.method.recalc = True\n',
+     'R11.2')
+fire('c11-stop-in-driver', 'C11', P, 'Process.DoGlobalIteration', '                self.method.FinalizeIteration()\n',
+     '                self.method.FinalizeIteration()\n                if self.method.CheckStopCondition():\n                    break\n',
+     'R11.2')
+fire('c11-range-plus', 'C11', P, 'Process.DoGlobalIteration', 'for _ in range(number):', 'for _ in range(number + 1):', 'R11.2')
+fire('c11-stop-side-effect', 'C11', M, 'Method.CheckStopCondition', '            self.stop = True\n',
+     '            self.stop = True\n            self.recalc = True\n', 'R11.3')
+fire('c11-stop-read', 'C11', M, 'Method.CalculateIterationPoint', '        if self.recalc is True:',
+     '        if self.recalc is True or self.stop:', 'R11.3')
+fire('c11-flag-reset', 'C11', P, 'Process.Solve', '        startTime = datetime.now()\n',
+     '        startTime = datetime.now()\n        self.__first_iteration = True\n', 'R11.4')
+fire('c11-flag-not-cleared', 'C11', P, 'Process.DoGlobalIteration', '                self.__first_iteration = False\n', '',
+     'R11.4')
+fire('c11-flag-starts-false', 'C11', P, 'Process.__init__', 'self.__first_iteration = True', 'self.__first_iteration = False',
+     'R11.4')
+fire('c11-posttest', 'C11', P, 'Process.Solve',
+     '            while not self.method.CheckStopCondition():\n                self.DoGlobalIteration()',
+     '            while True:\n                self.DoGlobalIteration()\n                if self.method.CheckStopCondition():\n                    break',
+     'R03.5')
+fire('c11-accuracy-reset', 'C11', P, 'Process.Solve', '        startTime = datetime.now()\n',
+     '        startTime = datetime.now()\n        self.searchData.solution.solutionAccuracy = 1.0\n', 'R03.6')
+twin('c11-flag-truthy', 'C11', P, 'Process.DoGlobalIteration', 'if self.__first_iteration is True:', 'if self.__first_iteration:')
+twin('c11-local-temp', 'C11', P, 'Process.DoGlobalIteration',
+     '                newpoint, oldpoint = self.method.CalculateIterationPoint()\n',
+     '                pair = self.method.CalculateIterationPoint()\n                newpoint, oldpoint = pair\n')
